@@ -57,8 +57,11 @@ type Case struct {
 	Ops   []string
 }
 
-// Out collects the canonical observable lines of one case.
-type Out struct{ lines []string }
+// Out collects the canonical observable lines of one case (and carries the case's ambient, see ambient_test.go).
+type Out struct {
+	lines []string
+	Amb   *Amb
+}
 
 func (o *Out) P(format string, a ...any) { o.lines = append(o.lines, fmt.Sprintf(format, a...)) }
 
@@ -143,7 +146,13 @@ func runOne(t *testing.T, c *Comp, cs Case) []string {
 			}
 			done <- o.lines
 		}()
-		c.Run(t, cs.Ops, o)
+		ops := cs.Ops
+		if len(ops) > 0 && strings.HasPrefix(ops[0], "amb ") {
+			a := parseAmb(ops[0])
+			o.Amb = &a
+			ops = ops[1:]
+		}
+		c.Run(t, ops, o)
 	}()
 	select {
 	case l := <-done:
